@@ -25,7 +25,7 @@ def caps_for(prog, fname, extra=None):
     return caps
 
 
-def check_function(ck, prog, rule, fname, extra_caps=None, assume=None, min_sites=1, only=None):
+def check_function(ck, prog, rule, fname, extra_caps=None, assume=None, min_sites=1, only=None, _depth=0):
     f = prog.fn(fname)
     if f is None:
         ck.anchor_lost(rule, "function %s not found" % fname)
@@ -57,6 +57,28 @@ def check_function(ck, prog, rule, fname, extra_caps=None, assume=None, min_site
                         {"obligation": r[3], "facts": r[4], "witness": r[5]})
         elif v == "UNDECIDED":
             ck.undecided(rule, st, K.loc(f, s.node), "`%s`: %s" % (s.what[:80], r[3]), {"facts": r[4]})
+    # static helpers that receive one of the tracked (buffer, capacity) pairs are part of this function's obligation
+    if _depth < 2:
+        caps = caps_for(prog, fname, extra_caps)
+        for c in f.calls():
+            g = prog.fn(c.get("callee") or "")
+            if g is None or not g.static or g.name == f.name or c.get("callee") in spec()["contracts"]:
+                continue
+            args = [a.strip_all_casts().get("path") for a in B.C.call_args(c)]
+            sub = {}
+            for key, cap in caps.items():
+                if key in args and isinstance(cap, str) and cap in args and len(g.params) >= len(args):
+                    sub[g.params[args.index(key)]["name"]] = g.params[args.index(cap)]["name"]
+                elif key in args and isinstance(cap, int):
+                    sub[g.params[args.index(key)]["name"]] = cap
+            if sub:
+                before = len(ck.instances)
+                pre = []
+                for i_, flags in an.call_lb.get(c.id, {}).items():
+                    if flags and all(flags) and i_ < len(g.params) and g.params[i_]["type"].get("tk") in ("int", "enum", "bool"):
+                        pre.append((g.params[i_]["name"], ">=", 1))
+                check_function(ck, prog, rule, g.name, extra_caps=sub, assume=pre or None, min_sites=0, only=only, _depth=_depth + 1)
+                n += sum(1 for i in ck.instances[before:] if i.rule == rule)
     if n < min_sites:
         ck.anchor_lost(rule, "%s: only %d write sites found (expected >= %d)" % (fname, n, min_sites))
     return an
